@@ -191,8 +191,10 @@ pub fn run(a: &Args) {
             Some(s) => json!({"has": true, "s": hexs(s.as_bytes())}),
             None => json!({"has": false, "s": ""}),
         };
+        // arguments that are not of the form the property quantifies over (an option without '=', a header without '=')
+        let malformed = argv.iter().any(|x| x == "malformed-header-argument") || opts_j.iter().any(|o| o["class"] == "noeq");
         sink.emit(
-            &json!({"ev": "ustart", "args": {"nocheck": ar["nocheck"], "input": if missing { json!("missing") } else { ar["input"].clone() }, "jobname": name(&jobname), "username": name(&username),
+            &json!({"ev": "ustart", "malformed": malformed, "args": {"nocheck": ar["nocheck"], "input": if missing { json!("missing") } else { ar["input"].clone() }, "jobname": name(&jobname), "username": name(&username),
             "opts": opts_j, "header": match &header { Some((k, v)) => json!({"has": true, "name": k, "value": v}), None => json!({"has": false, "name": "", "value": ""}) }},
             "target": split_uri(&target), "script": c["script"]}),
             &side,
